@@ -126,6 +126,8 @@ class Gen:
         pt = any(o.startswith("store") for o in opts) and r.random() < (0.5 if self.focus in ("C13", "C20") else 0.15)
         if pt:
             opts.append("ptimeout")
+        if self.focus == "C20" and "obs" in opts and r.random() < 0.4:
+            opts[opts.index("obs")] = "otel"      # the real OpenTelemetry implementation over the SDK recorders
         r.shuffle(opts)
         lines.append("opts " + " ".join(opts))
         if any(o.startswith("store") for o in opts) and r.random() < (0.8 if self.focus == "C13" else 0.3):
@@ -175,7 +177,7 @@ PROJ = {
     "C08": ("enter", "exit", "hook"),
     "C09": ("append", "log", "enter"),
     "C13": ("append", "perr", "log", "enter", "exit"),
-    "C20": ("obs", "enter", "exit"),
+    "C20": ("obs", "otel", "enter", "exit"),
 }
 
 def _proj(prop, out):
@@ -212,7 +214,7 @@ def nontrivial(prop, lines, impl):
     if prop == "C13":
         return any(l.startswith("append") and l.split()[5] == "0" for l in impl) or any(l.startswith("perr") for l in impl)
     if prop == "C20":
-        return sum(1 for l in impl if l.startswith("obs")) >= 6
+        return sum(1 for l in impl if l.startswith("obs")) >= 6 or any(l.startswith("otel ") and "started=0" not in l for l in impl)
     return len(enters) >= 1
 
 def protect(line):
